@@ -37,12 +37,38 @@ pub fn utf8_text(r: &mut Rng, max: usize) -> Vec<u8> {
     }
     s.into_bytes()
 }
+/// host-name-like strings of the classes name handling code tends to special-case
+pub fn hostname(r: &mut Rng, max: usize) -> Vec<u8> {
+    let label = |r: &mut Rng, n: usize| -> String { (0..n).map(|_| (b'a' + r.below(26) as u8) as char).collect() };
+    let s: String = match r.below(14) {
+        0 => format!("{}.{}.{}.{}", r.below(256), r.below(256), r.below(256), r.below(256)),
+        1 => "::1".into(),
+        2 => format!("2001:db8::{:x}:{:x}", r.u16(), r.u16()),
+        3 => format!("[{:x}::{:x}]", r.u16(), r.u16()),
+        4 => format!("xn--{}.example", label(r, 6)),
+        5 => format!("{}.example.com.", label(r, 5)),
+        6 => format!("*.{}.org", label(r, 4)),
+        7 => format!("{}.EXAMPLE.Com", label(r, 3).to_uppercase()),
+        8 => format!("_{}._tcp.{}.net", label(r, 3), label(r, 5)),
+        9 => format!("{}.{}", label(r, 63), label(r, 64)),
+        10 => "localhost".into(),
+        11 => format!("{}..{}", label(r, 2), label(r, 2)),
+        12 => format!("{}:{}", label(r, 6), r.below(65536)),
+        _ => {
+            let n = 1 + r.below(12) as usize;
+            format!("www.{}.com", label(r, n))
+        }
+    };
+    let mut v = s.into_bytes();
+    v.truncate(max);
+    v
+}
 /// an opaque field that is sometimes text
 pub fn name(r: &mut Rng, max: usize) -> Vec<u8> {
-    if r.chance(1, 3) {
-        utf8_text(r, max)
-    } else {
-        opaque(r, max)
+    match r.below(6) {
+        0 | 1 => utf8_text(r, max),
+        2 => hostname(r, max),
+        _ => opaque(r, max),
     }
 }
 pub fn opaque_min(r: &mut Rng, min: usize, max: usize) -> Vec<u8> {
@@ -118,7 +144,26 @@ pub fn ext_block(r: &mut Rng, sz: Sz) -> Option<Vec<u8>> {
 }
 pub fn u16_list(r: &mut Rng, max: usize) -> Vec<u16> {
     let n = list_len(r, max);
-    (0..n).map(|_| r.u16b()).collect()
+    let mut v: Vec<u16> = (0..n).map(|_| r.u16b()).collect();
+    // related elements: runs of duplicates, ascending / descending order, registered-after-unregistered pairs
+    match r.below(8) {
+        0 => v.sort(),
+        1 => {
+            v.sort();
+            v.reverse();
+        }
+        2 if n >= 2 => {
+            let i = r.usize(0, n - 2);
+            v[i + 1] = v[i];
+        }
+        3 if n >= 2 => {
+            let i = r.usize(0, n - 2);
+            v[i] = *r.pick(&[0x0a0au16, 0xffff, 0x1234]);
+            v[i + 1] = *r.pick(&[0x0000u16, 0x0001, 0x002f, 0x1301, 0xc02f]);
+        }
+        _ => {}
+    }
+    v
 }
 
 pub fn client_hello(r: &mut Rng, sz: Sz) -> ACh {
@@ -518,10 +563,29 @@ pub fn sct(r: &mut Rng, sz: Sz) -> ASct {
 /// list whose encoding fits the enclosing u16
 pub fn sct_vec(r: &mut Rng, sz: Sz, max: usize) -> Vec<ASct> {
     let n = list_len(r, max);
-    let mut out = Vec::new();
+    let mut out: Vec<ASct> = Vec::new();
     let mut total = 0usize;
     for _ in 0..n {
-        let s = sct(r, sz);
+        let mut s = sct(r, sz);
+        // related neighbours: the same log again with an equal / older / newer timestamp, or a verbatim repeat
+        if let Some(prev) = out.last() {
+            match r.below(8) {
+                0 => s = prev.clone(),
+                1 => {
+                    s.id = prev.id;
+                    s.timestamp = prev.timestamp.wrapping_sub(1 + r.below(1000));
+                }
+                2 => {
+                    s.id = prev.id;
+                    s.timestamp = prev.timestamp.wrapping_add(1 + r.below(1000));
+                }
+                3 => {
+                    s.id = prev.id;
+                    s.timestamp = prev.timestamp;
+                }
+                _ => {}
+            }
+        }
         let l = 2 + 1 + 32 + 8 + 2 + s.ext.len() + 2 + 2 + s.sig.len();
         if total + l > 65535 {
             break;
